@@ -1,2 +1,69 @@
-(* C09 — statements to come *)
-Require Import RV.Model.Server.
+(* C09 — exactly one response per accepted request, to its sender, for its own nonce.
+   Statements only; proofs are `exact <lemma>`. The functional specification (accepted,
+   reply_msg, spec_replies, spec_batch_sent, spec_drain_sent, SInv) is Spec/ServerGoals.v;
+   "accepted" is judged by the protocol spec `wellformed`, not by the implementation. *)
+Require Import RV.Model.Bytes RV.Gen.Tables RV.Model.Merkle RV.Model.Keys RV.Model.Server
+        RV.Spec.MerkleGoals RV.Spec.RefVerify RV.Spec.ServerGoals.
+Require Import RV.Proofs.RequestFacts RV.Proofs.ServerFacts RV.Proofs.ServerCorollaries.
+Local Open Scope N_scope.
+
+(* Server::new establishes the state invariant *)
+Theorem C09_server_new :
+  forall H ed_pk ed_sign, PkLen ed_pk -> SigLen ed_sign ->
+  forall cfg lt oi oc, exists s,
+    server_new H ed_pk ed_sign cfg lt oi oc = Ok s /\ SInv H ed_pk ed_sign cfg lt oi oc s.
+Proof. exact server_new_ok. Qed.
+Print Assumptions C09_server_new.
+
+(* Within and across batches: for ANY queue of datagrams and any state left behind by earlier
+   traffic, the drain emits exactly the specified datagrams — per batch of batch_size, the IETF
+   replies in arrival order then the classic replies in arrival order, each built for its own
+   request (own nonce echoed, own index, own inclusion path under the root over exactly the
+   accepted requests of its protocol in its batch) and addressed to its own source *)
+Theorem C09_drain :
+  forall H ed_pk ed_sign, HashLen H -> PkLen ed_pk -> SigLen ed_sign ->
+  forall cfg lt oi oc s queue clk coins,
+    SInv H ed_pk ed_sign cfg lt oi oc s -> fault_pct cfg = 0 ->
+    (1 <= batch_size cfg)%nat -> (batch_size cfg <= 255)%nat ->
+    let srv := ltk_srv_value H ed_pk lt in
+    let n := batch_size cfg in
+    exists s' lg,
+      process_events H ed_sign s queue clk coins =
+        Ok (s', mkso (spec_drain_sent H ed_pk ed_sign (S (length queue)) n srv lt oi oc clk 0 queue)
+                     (spec_drain_stats H ed_pk ed_sign (S (length queue)) n srv lt oi oc clk 0 queue) lg)
+      /\ SInv H ed_pk ed_sign cfg lt oi oc s'.
+Proof. exact (fun H ed_pk ed_sign => drain_spec H ed_pk ed_sign classify_wellformed). Qed.
+Print Assumptions C09_drain.
+
+(* exactly one datagram per accepted request *)
+Theorem C09_one_each :
+  forall H ed_pk ed_sign srv lt oi oc now ds,
+    length (spec_batch_sent H ed_pk ed_sign srv lt oi oc now ds)
+    = (length (accepted srv RfcDraft13 ds) + length (accepted srv Google ds))%nat.
+Proof. exact batch_count. Qed.
+Print Assumptions C09_one_each.
+
+(* each goes to the source its request came from, protocols batched separately *)
+Theorem C09_to_sender :
+  forall H ed_pk ed_sign srv lt oi oc now ds,
+    map em_dest (spec_batch_sent H ed_pk ed_sign srv lt oi oc now ds)
+    = map req_src (accepted srv RfcDraft13 ds) ++ map req_src (accepted srv Google ds).
+Proof. exact batch_dests. Qed.
+Print Assumptions C09_to_sender.
+
+(* rejected datagrams cause none: removing a datagram the spec rejects changes nothing *)
+Theorem C09_rejected_none :
+  forall srv v ds1 a d ds2, wellformed srv d = None ->
+    accepted srv v (ds1 ++ (a, d) :: ds2) = accepted srv v (ds1 ++ ds2).
+Proof. exact accepted_skip_invalid. Qed.
+Print Assumptions C09_rejected_none.
+
+(* the i-th reply of a protocol echoes the i-th accepted request's nonce and carries index i *)
+Theorem C09_own_nonce_and_index :
+  forall H ed_pk ed_sign v lt ok now reqs i,
+    exists sig path srep cert,
+      reply_msg H ed_pk ed_sign v lt ok now reqs i
+      = [(SIG, sig); (NONC, req_nonce (nth i reqs req0)); (PATH, path); (SREP, srep); (CERT, cert);
+         (INDX, u32le (N.of_nat i))].
+Proof. intros. unfold reply_msg. repeat eexists. Qed.
+Print Assumptions C09_own_nonce_and_index.
